@@ -20,6 +20,7 @@ import SA.Proofs.ReadAhead
 import SA.Gen.C17ReadAhead
 import SA.Gen.PkgVars
 import SA.Gen.LoopVars
+import SA.Proofs.DnsLoss
 namespace SA.Framing
 
 /-- a reader layer: `read s n` returns at most … bytes and the next state; `content` = bytes it still owes -/
@@ -454,3 +455,33 @@ end SA.ReadAhead
 
 #print axioms SA.ReadAhead.C01_selection_preserves_the_stream
 #print axioms SA.ReadAhead.C01_handler_reads_through_wrapper
+
+namespace SA.DnsLoss
+/-- **dns_loss_retransmitted**: on the DNS carrier, for every number of exchanges and EVERY loss schedule of the path in
+    which fewer than `tries` consecutive attempts are lost, every exchange of the stream completes — no fragment is
+    dropped, the session is not torn down — provided an expired exchange is recognised as a time-out. -/
+theorem C01_dns_loss_retransmitted (tries n : Nat) (s : List Fate) (h : maxRun s < tries) :
+    transfer true tries n s = n := transfer_all tries n s h
+
+/-- the code recognises it (regenerated): nothing between miekg's exchange and the time-out test re-creates the error
+    from its text, the test looks at the cause, and there are five attempts — so the code's transfer survives every
+    schedule with at most four losses in a row. -/
+theorem C01_dns_loss_code (n : Nat) (s : List Fate) (h : maxRun s < 5) :
+    transfer codeKeeps Gen.c07Tries n s = n := by
+  have hk : codeKeeps = true := by decide
+  have ht : Gen.c07Tries = 5 := by decide
+  rw [hk, ht]; exact transfer_all 5 n s h
+
+/-- witness of the regression class: when the time-out is NOT recognised (error flattened into text on the way up), a
+    single lost datagram after `k` clean exchanges ends the transfer there — the target gets a prefix only. -/
+theorem C01_witness_dns_loss_unrecognised (n k : Nat) (rest : List Fate) (hk : k < n) :
+    transfer false 5 n (List.replicate k Fate.ok ++ Fate.lost :: rest) = k ∧ k ≠ n :=
+  ⟨transfer_cut 5 n k rest hk (by decide), by omega⟩
+
+example : maxRun [.ok, .lost, .lost, .ok, .lost] = 2 ∧ transfer true 5 4 [.ok, .lost, .lost, .ok, .lost] = 4 := by decide
+example : transfer false 5 9 [.ok, .ok, .lost] = 2 := by decide
+end SA.DnsLoss
+
+#print axioms SA.DnsLoss.C01_dns_loss_retransmitted
+#print axioms SA.DnsLoss.C01_dns_loss_code
+#print axioms SA.DnsLoss.C01_witness_dns_loss_unrecognised
